@@ -182,6 +182,7 @@ func c01FieldDefs(c *lib.Ctx, idx uint64) {
 	for arch := byte(0); arch < 2; arch++ {
 		for base := 0; base < 256; base++ {
 			c.SetInflight([]byte(fmt.Sprintf("fielddefs message %d field %d arch %d base %#02x (all sizes)", pair.mesg, pair.num, arch, base)))
+			c.Tick()
 			for size := 0; size < 256; size++ {
 				b := build(arch, byte(base), byte(size), 0, 1)
 				r := lib.NewReader(b, lib.Chunker{Kind: "whole"})
